@@ -108,9 +108,14 @@ func c09Prefix(p, f reflect.Value, last bool, path string) string {
 		for _, k := range f.MapKeys() {
 			fk[c09KeyString(k)] = f.MapIndex(k)
 		}
+		unknown := 0
 		for _, k := range p.MapKeys() {
 			fv, ok := fk[c09KeyString(k)]
 			if !ok {
+				// a cut inside a text token: the truncated token may spell a different key (one entry at most)
+				if unknown++; last && c09Lenient && unknown == 1 {
+					continue
+				}
 				return fmt.Sprintf("%s{%s}: key is not in the full result", path, c09KeyString(k))
 			}
 			if r := c09Prefix(p.MapIndex(k), fv, last, path+"{"+c09KeyString(k)+"}"); r != "" {
